@@ -1,6 +1,7 @@
 #!/bin/bash
 # seedrun.sh <id> [tier] [property] : apply seeded/<id>/patch.diff to /repo, run the property's check, undo. Prints CAUGHT / MISSED.
 id=$1; tier=${2:-quick}
+if grep -q "\"obsolete\"" /verif/seeded/$id/meta.json; then echo "$id: OBSOLETE"; exit 0; fi
 prop=${3:-${id%%-*}}   # a third argument runs another property's check against the change
 cd /repo || exit 2
 if [ -n "$(git status --porcelain)" ]; then echo "/repo not clean"; exit 2; fi
